@@ -619,6 +619,18 @@ def _value_text(tree: ast.Module) -> dict:
             _fail('_conv_string_to_color: the last branch must raise', node)
         break
     out['color_read'] = reads
+    # binary blobs
+    w = _top_func(tree, '_conv_binary_to_string')
+    warg = w.args.args[0].arg if len(w.args.args) == 1 else _fail('_conv_binary_to_string: one parameter expected', w)
+    wb = _body(w)
+    mm = re.fullmatch(r"return " + warg + r"\.hex\('(.*)', (-?\d+)\)(\.upper\(\))?", ast.unparse(wb[0])) if len(wb) == 1 else None
+    if mm is None:
+        _fail(f'_conv_binary_to_string: `return byt.hex(sep, n)[.upper()]` expected, found {[ast.unparse(x) for x in wb]}', w)
+    if int(mm.group(2)) < 0 or len(mm.group(1)) != 1:
+        _fail('_conv_binary_to_string: unsupported separator / group size', w)
+    out['hex'] = {'sep': mm.group(1), 'group': int(mm.group(2)), 'upper': mm.group(3) is not None}
+    if _alias(tree, '_conv_string_to_binary') != 'bytes.fromhex':
+        _fail('_conv_string_to_binary is not bytes.fromhex')
     return out
 
 
@@ -1022,6 +1034,9 @@ def translate() -> tuple[str, dict]:
         'Definition gen_color_text_written : list string := [' + '; '.join(f'"{x}"%string' for x in vtext['color_written']) + '].',
         'Definition gen_color_text_read : list (N * list cread) := [' +
         '; '.join(f'({n}, [' + '; '.join(args) + '])' for n, args in vtext['color_read']) + '].',
+        f'Definition gen_hex_sep : list N := {_coq_str(vtext["hex"]["sep"])}.',
+        f'Definition gen_hex_group : N := {vtext["hex"]["group"]}.',
+        f'Definition gen_hex_upper : bool := {b(vtext["hex"]["upper"])}.',
         f'Definition gen_int_text_funcs : string * string := ("{vtext["int_funcs"][0]}"%string, "{vtext["int_funcs"][1]}"%string).',
         f'Definition gen_float_text_funcs : string * string := ("{vtext["float_funcs"][0]}"%string, "{vtext["float_funcs"][1]}"%string).',
         '(* KeyValues2 writer: is each interpolated string field escaped, and encoded with the file codec? *)',
